@@ -152,6 +152,7 @@ pub fn op_name(op: &Op) -> String {
         Op::BinS(b, a, ..) => format!("{b:?}scalar{}", if *a { "assign" } else { "" }).to_lowercase(),
         Op::Sum(_) => "sum".into(),
         Op::Product(_) => "product".into(),
+        Op::RBinS(b, ..) => format!("r{b:?}scalar").to_lowercase(),
     }
 }
 fn is_nonlinear(op: &Op) -> bool {
